@@ -88,7 +88,7 @@ func VerifAdvs(s vw.BGPSession, perm []int) []*bgp.Advertisement {
 // VerifRender drives the real session manager: NewSession in the given order, Set with the
 // given permutation of each advertisement list, optionally closing and re-creating sessions,
 // and returns the text templateConfig produces for the final state.
-func VerifRender(sessions []vw.BGPSession, order []int, advPerm [][]int, churn []int) (string, error) {
+func VerifRender(sessions []vw.BGPSession, order []int, advPerm [][]int, churn []int, prior ...[][]vw.BGPAdv) (string, error) {
 	osHostname = func() (string, error) { return "verif-host", nil }
 	sm := &sessionManager{sessions: map[string]*session{}, bfdProfiles: []BFDProfile{}, reloadConfig: make(chan reloadEvent, 4096), logLevel: "informational"}
 	drain := func() {
@@ -124,6 +124,19 @@ func VerifRender(sessions []vw.BGPSession, order []int, advPerm [][]int, churn [
 		err := handles[i].Set(VerifAdvs(sessions[i], p)...)
 		drain()
 		return err
+	}
+	// earlier Set calls with other advertisement lists: the final text must not remember them
+	if len(prior) > 0 {
+		for _, i := range idx {
+			if i < len(prior[0]) && prior[0][i] != nil {
+				old := sessions[i]
+				old.Advs = prior[0][i]
+				if err := handles[i].Set(VerifAdvs(old, nil)...); err != nil {
+					return "", fmt.Errorf("prior Set %s: %w", sessions[i].Name, err)
+				}
+				drain()
+			}
+		}
 	}
 	for _, i := range idx {
 		if err := set(i); err != nil {
